@@ -396,24 +396,30 @@ impl Xot {
     /// # Ok::<(), xot::Error>(())
     /// ```
     pub fn full_name(&self, node: Node, name: NameId) -> Result<String, Error> {
-        let namespace = self.namespace_for_name(name);
         let local_name = self.local_name_str(name);
-        if namespace == self.no_namespace() {
-            return Ok(local_name.to_string());
-        }
-        // look up the prefix for the namespace
-        if let Some(prefix) = self.prefix_for_namespace(node, namespace) {
-            let prefix = self.prefix_str(prefix);
-            if !prefix.is_empty() {
-                Ok(format!("{}:{}", prefix, local_name))
-            } else {
-                Ok(local_name.to_string())
-            }
+        // look up the prefix for the name
+        let prefix = self.prefix_for_name(node, name)?;
+        let prefix = self.prefix_str(prefix);
+        if !prefix.is_empty() {
+            Ok(format!("{}:{}", prefix, local_name))
         } else {
-            Err(Error::MissingPrefix(
-                self.namespace_str(namespace).to_string(),
-            ))
+            Ok(local_name.to_string())
         }
+    }
+
+    /// The prefix to write a name with in the scope of a node.
+    ///
+    /// The XML namespaces rules differ by the kind of name: the name of an
+    /// attribute node never takes the default namespace, so it needs a
+    /// non-empty prefix for its namespace.
+    pub(crate) fn prefix_for_name(&self, node: Node, name: NameId) -> Result<PrefixId, Error> {
+        let namespace = self.namespace_for_name(name);
+        let is_attribute = self.is_attribute_node(node);
+        if namespace == self.no_namespace() {
+            return Ok(self.empty_prefix());
+        }
+        self.namespace_prefix(node, namespace, is_attribute)
+            .ok_or_else(|| Error::MissingPrefix(self.namespace_str(namespace).to_string()))
     }
 
     /// Given a node, give back the name id of this node.
@@ -512,12 +518,26 @@ impl Xot {
     ///
     /// Returns `None` if no prefix is defined for the namespace.
     pub fn prefix_for_namespace(&self, node: Node, namespace: NamespaceId) -> Option<PrefixId> {
+        self.namespace_prefix(node, namespace, false)
+    }
+
+    // Find a prefix for a namespace in node or ancestors; for an attribute
+    // name only a non-empty prefix will do.
+    fn namespace_prefix(
+        &self,
+        node: Node,
+        namespace: NamespaceId,
+        non_empty: bool,
+    ) -> Option<PrefixId> {
         let mut seen = HashSet::default();
 
         for ancestor in self.ancestors(node) {
             for (key, value) in self.namespaces(ancestor).iter() {
                 // a prefix that was already seen is shadowed by a nearer declaration
                 if !seen.insert(key) {
+                    continue;
+                }
+                if non_empty && key == self.empty_prefix() {
                     continue;
                 }
                 if *value == namespace {
@@ -527,6 +547,9 @@ impl Xot {
         }
         for (key, value) in self.base_prefixes() {
             if !seen.insert(key) {
+                continue;
+            }
+            if non_empty && key == self.empty_prefix() {
                 continue;
             }
             if value == namespace {
